@@ -175,10 +175,10 @@ def run(ctx):
     th = ctx.thorough()
     rnd = random.Random(ctx.seed)
     if th:
-        # (4 bytes, payload <= 3, noise <= 3 took about 25 minutes on an idle machine and ran into the
-        # time limit on a loaded one: noise <= 2 with the large alphabet, noise <= 3 with the small one)
-        model(ctx, [0, 255, 126, 63], 3, 2, False)
-        model(ctx, [0, 255, 126], 2, 3, False)
+        # (4 byte values, payload <= 3, noise <= 3 took about 25 minutes on an idle machine and ran into
+        # the time limit on a loaded one: the large alphabet with payload <= 2, the small one with <= 3)
+        model(ctx, [0, 255, 126, 63], 2, 2, False)
+        model(ctx, [0, 255, 126], 3, 2, False)
         stride, nrand, nchunk = 7, 1500, 3
     else:
         model(ctx, [0, 255, 126], 2, 2, False)
